@@ -16,6 +16,7 @@ type Template struct {
 }
 
 func (t *Template) String(filename string, data map[string]any) (string, *fail.Error) {
+	defer verifGate("String.exit")
 	env, envErr := object.EnvFromMap(data)
 
 	if envErr != nil {
@@ -44,6 +45,7 @@ func (t *Template) String(filename string, data map[string]any) (string, *fail.E
 }
 
 func (t *Template) Response(w http.ResponseWriter, filename string, data map[string]any) error {
+	defer verifGate("Response.exit")
 	evaluated, failErr := t.String(filename, data)
 
 	if failErr == nil {
